@@ -34,28 +34,28 @@ XYLOC_REF = {"t": ("cx", "y1"), "tr": ("x2", "y1"), "r": ("x2", "cy"), "br": ("x
 
 
 def run(prog, chk):
-    tables(prog, chk)
-    pipeline(prog, chk)
-    prev_point(prog, chk)
-    identical_operands(prog, chk)
-    gap_is_a_number(prog, chk)
+    chk.rule(tables, prog, chk)
+    chk.rule(pipeline, prog, chk)
+    chk.rule(prev_point, prog, chk)
+    chk.rule(identical_operands, prog, chk)
+    chk.rule(gap_is_a_number, prog, chk)
     from props import C11
-    C11.axis_consistency(prog, chk)  # dx / dy and coordinates never cross axes (shared with C11)
-    C11.emission_algebra(prog, chk)  # the position that was worked out is written as the element's native geometry
-    C11.native_only(prog, chk)  # ... and the offsets it consumed (dx / dy) are removed, not applied a second time
+    chk.rule(C11.axis_consistency, prog, chk)  # dx / dy and coordinates never cross axes (shared with C11)
+    chk.rule(C11.emission_algebra, prog, chk)  # the position that was worked out is written as the element's native geometry
+    chk.rule(C11.native_only, prog, chk)  # ... and the offsets it consumed (dx / dy) are removed, not applied a second time
     from props import C16, C10
-    C16.extent_accumulation(prog, chk)  # a group's box (what `#g|h` / `#g~x2` refer to) includes every pass of a loop inside it
-    C10.retry_progress(prog, chk)  # a forward reference (also to a <point>) is placed on the retry
-    C10.registration_keys_agree(prog, chk)  # ... against the resolved target: a deferred target's provisional registration is withdrawn under the key it was made under
-    C11.extraction_algebra(prog, chk)
+    chk.rule(C16.extent_accumulation, prog, chk)  # a group's box (what `#g|h` / `#g~x2` refer to) includes every pass of a loop inside it
+    chk.rule(C10.retry_progress, prog, chk)  # a forward reference (also to a <point>) is placed on the retry
+    chk.rule(C10.registration_keys_agree, prog, chk)  # ... against the resolved target: a deferred target's provisional registration is withdrawn under the key it was made under
+    chk.rule(C11.extraction_algebra, prog, chk)
     from props import C17
-    C17.depth_pairing(prog, chk)  # forward references are placed by retrying: a depth count leaked by a deferred attempt turns a valid chain into a limit error
+    chk.rule(C17.depth_pairing, prog, chk)  # forward references are placed by retrying: a depth count leaked by a deferred attempt turns a valid chain into a limit error
     from props import geomalg
-    geomalg.check_sites(prog, chk, "C09")
-    geomalg.check_float_truncation(prog, chk)  # no float is cut down to an integer on the way (a truncated distance / coordinate makes different candidates tie)
-    geomalg.check(prog, chk, "C09", floor=47)
+    chk.rule(geomalg.check_sites, prog, chk, "C09")
+    chk.rule(geomalg.check_float_truncation, prog, chk)  # no float is cut down to an integer on the way (a truncated distance / coordinate makes different candidates tie)
+    chk.rule(geomalg.check, prog, chk, "C09", floor=47)
     from props import strops
-    strops.check_for(prog, chk, "C09")  # A14.str-ops: how this property's strings are cut up is a reviewed, frozen inventory
+    chk.rule(strops.check_for, prog, chk, "C09")  # A14.str-ops: how this property's strings are cut up is a reviewed, frozen inventory
 
 
 def _variant_of(n):
